@@ -457,4 +457,7 @@ func (e *engine) runC35() {
 		}
 		e.cmp(op, e.m.Query(op), impl, "stripprefix", "dispatch.strip", "")
 	}
+
+	// history independence + separator-ambiguity families of the prefix encoders (c35b.go)
+	e.runC35Pure()
 }
